@@ -202,6 +202,8 @@ func main() {
 	flag.Parse()
 	tier := drv.Tier(*tierF)
 	seqx.PinGlobals()
+	// the stack flag of a derivation is observable only through a stack marshaler and an error field
+	zerolog.ErrorStackMarshaler = func(err error) interface{} { return "STK" }
 	r := seq.New("C05", tier, "model_checking")
 	defer r.CrashGuard()
 	r.Rule = "explicit-state search over logger worlds: every sequence of <= D transitions (derive a Logger/Context from any live value, open an event on any logger, add a field / a GetCtx-recording marshaler, finalise any open event) is replayed on the real zerolog in lock-step with the reference model; after the last transition every live logger emits a probe event (and a Dict()/Context.Object probe reads GetCtx) which must match the logger's own derivation path; states = distinct (transition sequence, probe outputs) , transitions = transitions applied; plus an interleaving exploration (Engine S) of threads deriving from and logging through a shared parent"
